@@ -450,7 +450,8 @@ func (wk *Worker) evalCase(t *rapid.T, c Case, rs uint64) {
 			}
 			continue
 		}
-		if strings.Contains(f.Sig, "real-binary") {
+		if strings.Contains(f.Sig, "real-binary") || strings.HasSuffix(f.Sig, " [huge]") {
+			// (" [huge]": a case too expensive to be re-run hundreds of times by a shrinker, e.g. a book of 120 000 recipes)
 			// A finding of a real-binary arm is kept aside: the real program runs under the host's scheduler
 			// and clock, so it is not handed to the shrinker (which needs repeatable failures); it is reported
 			// if the simulated arms of this worker find nothing, and check replays it like any other.
